@@ -1045,6 +1045,10 @@ class ParseUniq:
             blocknode=blocknode,
         )
 
+    def create_syntaxhighlight(self, _name, vlist, inner, xopts):
+        # an alias of <source>: the body must not be parsed again
+        return self.create_source("source", vlist, inner, xopts)
+
     def create_ref(self, _name, vlist, inner, xopts):
         expander = xopts.expander
         if expander is not None and inner:
